@@ -402,7 +402,7 @@ class Daemon:
             return ''
 
 
-def probe(cmd, lines, timeout=600, binary='acmed_v', env=None, cwd=None):
+def probe(cmd, lines, timeout=600, binary='acmed_v', env=None, cwd=None, prefix=None):
     """Runs the in-crate probe. Returns (returncode, [json records], stderr text)."""
     if PROBE_GROUP_OF.get(cmd) in probe_groups_disabled(binary):
         return (64, [], 'probe group %s was left out of this build (it does not compile against the current tree)' % PROBE_GROUP_OF.get(cmd))
@@ -411,7 +411,7 @@ def probe(cmd, lines, timeout=600, binary='acmed_v', env=None, cwd=None):
         e.update(env)
     data = ''.join(json.dumps(l) + '\n' for l in lines).encode()
     try:
-        p = subprocess.run([BIN[binary]], input=data, stdout=subprocess.PIPE, stderr=subprocess.PIPE,
+        p = subprocess.run(list(prefix or []) + [BIN[binary]], input=data, stdout=subprocess.PIPE, stderr=subprocess.PIPE,
                            env=e, timeout=timeout, cwd=cwd)
     except subprocess.TimeoutExpired as ex:
         recs = []
